@@ -1106,7 +1106,15 @@ class _Tree(_ArithmeticMixin, _Base):
     def _grow(self, child, index):
         self._p_changed = True
         new_child = child._split()
-        self._data.insert(index + 1, _TreeItem(new_child.minKey(), new_child))
+        if isinstance(new_child, _Tree):
+            # The key that led to the first child of the new node bounds
+            # the whole new node (the C implementation hands up the same
+            # key).  Asking for minKey() may have to load nodes, which can
+            # fail when it is too late to take the split back.
+            key = new_child._data[0].key
+        else:
+            key = new_child.minKey()
+        self._data.insert(index + 1, _TreeItem(key, new_child))
         if len(self._data) >= type(self).max_internal_size * 2:
             self._split_root()
 
@@ -1122,16 +1130,20 @@ class _Tree(_ArithmeticMixin, _Base):
         if index is None:
             index = len(data) // 2
 
+        first = data[index]
+        # Look at the child (it may have to be loaded, which can fail)
+        # before anything is moved.
+        if isinstance(first.child, type(self)):
+            firstbucket = first.child._firstbucket
+        else:
+            firstbucket = first.child
+
         next = type(self)()
         next._data = data[index:]
-        first = data[index]
         del data[index:]
         if len(data) == 0:
             self._firstbucket = None  # lost our bucket, can't buy no beer
-        if isinstance(first.child, type(self)):
-            next._firstbucket = first.child._firstbucket
-        else:
-            next._firstbucket = first.child
+        next._firstbucket = firstbucket
         return next
 
     def _del(self, key):
